@@ -10,6 +10,8 @@ ops (one output line each):
         held = comma separated block numbers the store holds (`*` = all, `-` = none)
   stack <req|resp> <global> <perReq> <LT>      -> `loads=<n> out=<…>`   (complete store)
   stackskip req <global> <perReq> <k> <LT>     -> `loads=<n> out=<…>`   (requestor resumes after k blocks)
+  stackseq <req|resp> <global> <p1,p2,…> <LT>  -> `loads=<n1,n2,…> out=<o1,o2,…>`  (successive requests between one pair of
+        instances; the model is stateless across requests: each is `serve` with its own per-request limit)
 LT prefix form: <block> <number of children> child*
 -/
 namespace GS.Driver.Budget
@@ -72,6 +74,16 @@ def stepLine (t : Toks) : String :=
       let r := serve .requestor (fun _ => true) g p lt
       s!"loads={r.loads.length} out={showOutcome r.outcome}"
     | _, _, _, _ => "bad-op"
+  | "stackseq" :: side :: g :: ps :: rest =>
+    let sd : Option Side := if side == "req" then some .requestor else if side == "resp" then some .responder else none
+    let pers := (ps.splitOn ",").map String.toNat?
+    match sd, g.toNat?, parseLT (rest.length + 1) rest with
+    | some sd, some g, some (lt, []) =>
+      if pers.all Option.isSome && pers.length ≤ 6 then
+        let rs := (pers.filterMap id).map fun p => serve sd (fun _ => true) g p lt
+        s!"loads={",".intercalate (rs.map fun r => toString r.loads.length)} out={",".intercalate (rs.map fun r => showOutcome r.outcome)}"
+      else "bad-op"
+    | _, _, _ => "bad-op"
   | _ => "bad-op"
 
 def handler (ops : List Toks) : List String := ops.map stepLine
